@@ -290,15 +290,10 @@ func (m *Model) deleteMode(id string, opts ...resource.WriteOption) error {
 		return ErrDeleteActiveMode
 	}
 
-	msg, err := m.modes.Delete(id, opts...)
-	if err != nil {
-		return err
-	}
-	if msg == nil {
-		return ErrModeNotFound
-	}
-
-	return nil
+	// Delete reports an absent id as NotFound itself, it returns (nil, nil) only when the id is absent and the caller
+	// allowed that with resource.WithAllowMissing: that is a success
+	_, err := m.modes.Delete(id, opts...)
+	return err
 }
 
 // UpdateMode will modify one of the modes stored in this device.
